@@ -23,6 +23,33 @@ CHECKS = {
         "/ 20 s time budgets as a stand-in for termination, nesting <= 40.",
         "DESIGN.md section 5 C01",
     ),
+    "C15": (
+        "exhaustive enumeration of small sequences x index arguments against "
+        "a sequence reference model, plus Hypothesis for long sequences and "
+        "huge indices",
+        "Every string over {a,b,c} and list over {1,2,3} up to length 4 "
+        "(quick) / 6 (thorough) x every index in [-9, 9] for all indexing, "
+        "slicing, substr/sublist, find/find_last, insert_at, delete_at and "
+        "element-assignment forms is evaluated by the interpreter and "
+        "compared with a model written from the statement; random longer "
+        "sequences and indices up to 2^64 on top. Exhaustive inside the "
+        "bound, sampled outside.",
+        "Trusted: the 60-line sequence model; runtime errors are observed "
+        "through `catch all`; find/find_last parts non-empty, start in range.",
+        "DESIGN.md section 5 C15",
+    ),
+    "C17": (
+        "exhaustive enumeration of the calendar (thorough) / key days of "
+        "every year + Hypothesis-generated days, times and offsets (quick) "
+        "against Python's proleptic Gregorian calendar",
+        "Differential check of to_oa_date / to_date and of interpreted date "
+        "arithmetic against datetime ordinals: thorough enumerates all 2.96 "
+        "million days 1900-9999; quick covers 1 Jan / 28-29 Feb / 1 Mar / "
+        "31 Dec of every year plus random days, times of day and offsets.",
+        "Trusted: Python's datetime as the reference calendar; times compared "
+        "after rounding to the nearest second.",
+        "DESIGN.md section 5 C17",
+    ),
 }
 
 NOT_APPLICABLE = {}
